@@ -16,6 +16,8 @@
 (***************************************************************************)
 EXTENDS Integers, Sequences, FiniteSets, TLC, Json
 
+CONSTANT Deep   \* TRUE: also every entity that differs from E0 in TWO slots, three-element documents, cuts of those
+
 \* shape alphabets: [name |-> ..., ok |-> BOOLEAN]
 CtxShapes == { [n |-> "ok", ok |-> TRUE], [n |-> "ok_default_prefix", ok |-> TRUE],
                [n |-> "no_namespaces", ok |-> FALSE], [n |-> "namespaces_null", ok |-> FALSE],
@@ -30,21 +32,32 @@ RecShapes == { [n |-> "absent", ok |-> TRUE], [n |-> "number", ok |-> TRUE], [n 
 PropShapes == { [n |-> "absent", ok |-> TRUE], [n |-> "empty", ok |-> TRUE], [n |-> "scalars", ok |-> TRUE],
                 [n |-> "arrays_nested", ok |-> TRUE], [n |-> "nested_entity", ok |-> TRUE],
                 [n |-> "empty_arrays", ok |-> TRUE], [n |-> "numbers", ok |-> TRUE],
-                [n |-> "array_of_entities", ok |-> TRUE],
+                [n |-> "array_of_entities", ok |-> TRUE], [n |-> "unicode_escapes", ok |-> TRUE],
                 [n |-> "array_instead_of_object", ok |-> FALSE], [n |-> "unknown_prefix_key", ok |-> FALSE] }
 RefShapes == { [n |-> "absent", ok |-> TRUE], [n |-> "empty", ok |-> TRUE], [n |-> "single", ok |-> TRUE],
                [n |-> "array", ok |-> TRUE], [n |-> "empty_array", ok |-> TRUE], [n |-> "number_value", ok |-> FALSE], [n |-> "array_with_number", ok |-> FALSE],
                [n |-> "object_value", ok |-> FALSE], [n |-> "unknown_prefix_value", ok |-> FALSE] }
 
+\* the order in which the keys of the entity object are written (JSON objects are unordered: all valid)
+OrdShapes == { [n |-> "std", ok |-> TRUE], [n |-> "reversed", ok |-> TRUE], [n |-> "id_last", ok |-> TRUE],
+               [n |-> "deleted_first", ok |-> TRUE] }
+
 Pick(S, name) == CHOOSE x \in S : x.n = name
 E0 == [id |-> Pick(IdShapes, "curie"), del |-> Pick(DelShapes, "absent"), rec |-> Pick(RecShapes, "absent"),
-       props |-> Pick(PropShapes, "scalars"), refs |-> Pick(RefShapes, "absent")]
+       props |-> Pick(PropShapes, "scalars"), refs |-> Pick(RefShapes, "absent"), ord |-> Pick(OrdShapes, "std")]
 \* every entity that differs from E0 in one slot (valid and invalid variants), and E0 itself
 Variants == {E0}
             \cup { [E0 EXCEPT !.id = x] : x \in IdShapes } \cup { [E0 EXCEPT !.del = x] : x \in DelShapes }
             \cup { [E0 EXCEPT !.rec = x] : x \in RecShapes } \cup { [E0 EXCEPT !.props = x] : x \in PropShapes }
-            \cup { [E0 EXCEPT !.refs = x] : x \in RefShapes }
-EntOk(e) == e.id.ok /\ e.del.ok /\ e.rec.ok /\ e.props.ok /\ e.refs.ok
+            \cup { [E0 EXCEPT !.refs = x] : x \in RefShapes } \cup { [E0 EXCEPT !.ord = x] : x \in OrdShapes }
+            \* key orders matter most when the other slots are present
+            \cup { [E0 EXCEPT !.ord = x, !.del = Pick(DelShapes, "true"), !.refs = Pick(RefShapes, "array")] : x \in OrdShapes }
+Slots == {"id", "del", "rec", "props", "refs", "ord"}
+Alphabet(k) == CASE k = "id" -> IdShapes [] k = "del" -> DelShapes [] k = "rec" -> RecShapes
+                 [] k = "props" -> PropShapes [] k = "refs" -> RefShapes [] k = "ord" -> OrdShapes
+Variants2 == UNION { { [E0 EXCEPT ![k1] = x, ![k2] = y] : x \in Alphabet(k1), y \in Alphabet(k2) }
+                     : k1 \in Slots, k2 \in Slots \ {"id"} }
+EntOk(e) == e.id.ok /\ e.del.ok /\ e.rec.ok /\ e.props.ok /\ e.refs.ok /\ e.ord.ok
 ValidVariants == { e \in Variants : EntOk(e) }
 
 VARIABLES ctx, ents, cut    \* cut = 0: complete document; k > 0: the bytes end after element k (context = 1)
@@ -57,6 +70,10 @@ Init ==
   \/ (ctx = Pick(CtxShapes, "ok") /\ ents \in { <<a, b>> : a \in ValidVariants, b \in ValidVariants } /\ cut = 0)
   \/ (ctx = Pick(CtxShapes, "ok") /\ ents \in { <<E0, e>> : e \in ValidVariants } /\ cut \in 1..3)
   \/ (ctx = Pick(CtxShapes, "ok") /\ ents = <<>> /\ cut \in 0..1)
+  \/ (Deep /\ ctx \in {Pick(CtxShapes, "ok"), Pick(CtxShapes, "ok_default_prefix")}
+            /\ ents \in { <<e>> : e \in Variants2 } /\ cut = 0)
+  \/ (Deep /\ ctx = Pick(CtxShapes, "ok") /\ ents \in { <<E0, e, E0>> : e \in Variants } /\ cut \in 0..4)
+  \/ (Deep /\ ctx \in CtxShapes /\ ents \in { <<a, b>> : a \in ValidVariants, b \in ValidVariants } /\ cut = 0)
 Next == UNCHANGED pvars
 Spec == Init /\ [][Next]_pvars
 
@@ -65,7 +82,7 @@ Valid == ctx.ok /\ cut = 0 /\ \A i \in 1..Len(ents) : EntOk(ents[i])
 OneBadSlotInvalidates ==
   ((\E i \in 1..Len(ents) : ~EntOk(ents[i])) \/ ~ctx.ok \/ cut # 0) => ~Valid
 
-Shape(e) == [id |-> e.id.n, del |-> e.del.n, rec |-> e.rec.n, props |-> e.props.n, refs |-> e.refs.n]
+Shape(e) == [id |-> e.id.n, del |-> e.del.n, rec |-> e.rec.n, props |-> e.props.n, refs |-> e.refs.n, ord |-> e.ord.n]
 EmitDoc == PrintT(<<"DOC", ToJson([ctx |-> ctx.n, ents |-> [i \in 1..Len(ents) |-> Shape(ents[i])], cut |-> cut,
                                     valid |-> Valid,
                                     \* a transaction payload carries its context under the key "@context": the context
